@@ -27,3 +27,9 @@ Proof.
   specialize (H Hn). vm_compute in H. discriminate H.
 Qed.
 Print Assumptions C02_text_roundtrip_full_refuted.
+
+(* quote_string, whose output the round-trip theorem above reads back, is regenerated from its source text on every run *)
+From PyDBML Require Import GenFns GenFnTie.
+Theorem C02_quote_string_regenerated_from_source : forall t, gen_quote_string t = quote_string t.
+Proof. exact gen_quote_string_is_model. Qed.
+Print Assumptions C02_quote_string_regenerated_from_source.
